@@ -65,7 +65,11 @@ fn parse_header_line(line: &[u8]) -> Result<(&str, &[u8]), HttpParsingError> {
     }
 
     let name_str = unsafe { std::str::from_utf8_unchecked(&line[..colon]) };
-    let value = &line[colon + 1..].trim_ascii_start();
+    // only optional whitespace (SP / HTAB) separates the colon from the value: nothing else is dropped
+    let mut value = &line[colon + 1..];
+    while let [b' ' | b'\t', rest @ ..] = value {
+        value = rest;
+    }
     Ok((name_str, value))
 }
 
